@@ -73,6 +73,7 @@ Eval(ty, e, env) ==
     [] e.op = "adj"    -> Only({R!Adj(x, y)  : x \in {Eval(ty, e.a, env)}, y \in {Eval(ty, e.b, env)}})
     [] e.op = "adjT"   -> Only({R!AdjT(x, y) : x \in {Eval(ty, e.a, env)}, y \in {Eval(ty, e.b, env)}})
     [] e.op = "retr"   -> Only({R!Retr(x, y) : x \in {Eval(ty, e.a, env)}, y \in {Eval(ty, e.b, env)}})
+    [] e.op = "vadd"   -> Only({TLCEval([i \in DOMAIN x |-> UAdd(x[i], y[i])]) : x \in {Eval(ty, e.a, env)}, y \in {Eval(ty, e.b, env)}})
     [] e.op = "exp"    -> Only({R!ExpNearTrans(x) : x \in {Eval(ty, e.a, env)}})
     [] e.op = "log"    -> Only({R!LogNearTrans(NormQ(x)) : x \in {Eval(ty, e.a, env)}})
     [] e.op = "matrix" -> Only({FlatM(ty, x) : x \in {Eval(ty, e.a, env)}})
